@@ -762,5 +762,5 @@ class ConstantFactor(ConjugateFactor):
         Returns:
             Dictionary with relevant parameters.
         """
-        factor_dict = {"ln_beta": self.ln_beta, "D": self.D}
+        factor_dict = {"ln_beta": self.ln_beta, "num_dim": self.D}
         return factor_dict
